@@ -501,7 +501,7 @@ def gen_parent_hierarchy(rng, depth=None, leaf_len=None, seqless=False):
     node = {
         "id": "root",
         "sequence_type": rng.choice(["chromosome", "chromosome", "contig", None]),
-        "sequence": {"data": top_seq, "alphabet": "NT_EXTENDED_GAPPED", "id": "root", "type": None} if (rng.random() < 0.8 and not seqless) else None,
+        "sequence": {"data": top_seq, "alphabet": "NT_EXTENDED_GAPPED", "id": "root", "type": None} if (rng.random() < 0.8 and seqless is not True) else None,
         "location": None,
         "parent": None,
     }
@@ -530,7 +530,11 @@ def gen_parent_hierarchy(rng, depth=None, leaf_len=None, seqless=False):
             "id": f"lvl{d}",
             "sequence_type": stype,
             # seqless: a coordinate system known only by id/type, placed on its parent by a location (no Sequence object)
-            "sequence": None if seqless else {"data": sub, "alphabet": "NT_EXTENDED_GAPPED", "id": f"lvl{d}", "type": stype},
+            # ("mixed": each level decides for itself - e.g. a sequence-bearing fragment on a chunk known only by name;
+            # not used by the plan generator: in such hierarchies the known finding F3 shows through every operation
+            # that builds a Parent, see DESIGN.md 9.5, seeded r8 c10-sequence-hash-parent-id-only)
+            "sequence": None if (seqless is True or (seqless == "mixed" and rng.random() < 0.5))
+            else {"data": sub, "alphabet": "NT_EXTENDED_GAPPED", "id": f"lvl{d}", "type": stype},
             "location_on_parent": loc,
             "parent_desc": parent_desc,
         }
